@@ -466,7 +466,12 @@ class XMLReader(object):
 
         if insert_children:
             for child in children:
-                obj.append(child)
+                try:
+                    obj.append(child)
+                except (KeyError, ValueError) as exc:
+                    # e.g. a second child of the same name; report it the
+                    # parser way instead of leaking the exception.
+                    self.error(str(exc), root)
 
         return obj
 
